@@ -346,3 +346,63 @@ Definition kd_schedule (cmax : version) (k1 d1 k2 d2 : nat) (r1 r2 : reaction) :
           repeat WKeepAlive d2 ++
           (if set_accepted r2 then repeat WPeerReads d2 else [])
     end.
+
+(* ---- when the answer to a negotiation message arrives, if ever -------------------------------- *)
+(* negotiate waits for each reply under a context: with WithTimeout(t) it ends after t
+   (context.DeadlineExceeded, whether or not other traffic keeps the link alive); without a timeout
+   only the end of the connection ends it.  A reply that arrives after the client has given up finds
+   nobody waiting (its message ID is no longer in the awaiting map) and is dropped like any
+   unsolicited message.
+     InTime        the reaction reaches the client while it waits
+     Never         no reply at all (the reaction is irrelevant); the link may well stay alive
+     AfterGivingUp the reply is sent later than any client timeout would allow: too late for a
+                   client with a timeout, merely slow for one without *)
+Inductive arrival := InTime | Never | AfterGivingUp.
+
+Definition timed := (arrival * reaction)%type.
+
+(* what the client experiences: Some r = the reply r (NoReply: its wait has ended without one);
+   None = it is still waiting, and will be for as long as the connection lasts *)
+Definition experienced (has_timeout : bool) (t : timed) : option reaction :=
+  match fst t with
+  | InTime => Some (snd t)
+  | Never => if has_timeout then Some NoReply else None
+  | AfterGivingUp => if has_timeout then Some NoReply else Some (snd t)
+  end.
+
+(* the reader's answer to the query makes the client send SET_PROTOCOL_VERSION *)
+Definition switch_needed (cmax : version) (r1 : reaction) : bool :=
+  negb (cmax <=? V1_0_1) &&
+  match get_supported r1 with
+  | Some (cur, mx) => negb (cur =? (if mx <? cmax then mx else cmax))
+  | None => false
+  end.
+
+(* a whole session with timed reactions.  Result: (still waiting?, negotiation, traffic).  While
+   Connect is still waiting nothing but the negotiation frames so far has been written, the send
+   gate is closed, and the version is what negotiate has assigned so far (n_outcome is Fails in
+   that case only because Connect has not succeeded). *)
+Definition session_t (cfg : config) (has_timeout : bool) (cmax : version) (k1 d1 k2 d2 : nat)
+  (t1 t2 : timed) (evs : list post_event) : bool * (neg_result * post_state) :=
+  let go r1 r2 := (false, session_kd cfg cmax k1 d1 k2 d2 r1 r2 evs) in
+  let wait r1 := let r := fst (negotiate_kd cfg cmax k1 d1 k2 d2 r1 NoReply) in
+                 (true, (r, mkPost (n_version r) [])) in
+  if cmax <=? V1_0_1 then go (snd t1) (snd t2)
+  else
+    match experienced has_timeout t1 with
+    | None => wait NoReply
+    | Some r1 =>
+        if switch_needed cmax r1 then
+          match experienced has_timeout t2 with
+          | None => wait r1
+          | Some r2 => go r1 r2
+          end
+        else go r1 (snd t2)
+    end.
+
+(* the message gets no answer the client could use *)
+Definition unanswered (has_timeout : bool) (t : timed) : Prop :=
+  fst t = Never \/ (fst t = AfterGivingUp /\ has_timeout = true).
+
+Definition connect_succeeds (s : bool * (neg_result * post_state)) : Prop :=
+  fst s = false /\ n_outcome (fst (snd s)) = Proceeds.
